@@ -1,14 +1,15 @@
 """Case generators of the C08 check (engine "sysos"): layout tables, page-table trees for the
 scanning primitives, synthesised x86-64 Linux images."""
 from .. import core
+from . import c08_img
 
 M64 = (1 << 64) - 1
 
 
 def plan(quick):
     if quick:
-        return {"lay": 1500, "scan": 260, "os": 60}
-    return {"lay": 40000, "scan": 6000, "os": 2500}
+        return {"lay": 1500, "scan": 260, "os": 60, "osx": 160, "archlay": 300}
+    return {"lay": 40000, "scan": 6000, "os": 2500, "osx": 6000, "archlay": 8000}
 
 
 def generate(kind, rng):
@@ -18,6 +19,10 @@ def generate(kind, rng):
         return gen_scan(rng)
     if kind == "os":
         return gen_os(rng)
+    if kind == "osx":
+        return c08_img.gen_other_arch(rng)
+    if kind == "archlay":
+        return gen_archlay(rng)
     raise ValueError(kind)
 
 
@@ -64,6 +69,27 @@ def gen_lay(rng):
             regs.append("%x-%x-%x-%x" % (a, b, meth, act))
         calls.append("S%x:%s" % (idx, ",".join(regs)))
     return [("lay " + " ".join(calls), "", "lay")]
+
+
+def gen_archlay(rng):
+    if rng.random() < 0.5:
+        vs = rng.choice(["-", "c0000000", "1000", "c0000001", "c0001000", "c8800000", "f8800000", "ffffffff",
+                         "%x" % (0xc0000000 + (rng.randint(1, 0x3ffff) << 12)),
+                         "%x" % (0xc0000000 + rng.randint(1, 0x3fffffff))])
+        return [("ia32dm " + vs, "", "archlay/ia32dm")]
+    first = rng.choice([0xc0000000, 0xffff000000000000, 0xffffffd800000000, 0x80000000, 0, rng.getrandbits(64) & ~0xfff])
+    last = min(M64, first + rng.choice([0xfff, 0x2fffffff, 0xffffffff, rng.getrandbits(rng.randint(12, 46))]))
+    base = rng.choice([0, 0x80000000, 0x40000000, rng.getrandbits(40) & ~0xfff])
+    if base + (last - first) > M64:
+        base = 0
+    off = base - first
+    if off <= -(1 << 63):
+        off = 0
+    return [("lindm %x %x %s" % (first, last, hexs(off)), "", "archlay/lindm")]
+
+
+def hexs(v):
+    return ("-%x" % -v) if v < 0 else ("%x" % v)
 
 
 # ---------------------------------------------------------------------------
@@ -457,6 +483,8 @@ def outcome_class(case, impl):
         return "statuses " + impl.split()[0] if impl else "?"
     if k == "scan":
         return "status " + impl.split()[0] if impl else "?"
+    if k == "os" and impl and "arch=x86_64" not in case and " arch=" in case:
+        return "status %s %s" % (impl.split()[0], "direct" if " m2=L:" in impl else "nodirect")
     if k == "os" and impl:
         d = "direct" if " m2=L:" in impl else "nodirect"
         t = "ktext-linear" if " m3=L:" in impl else "ktext-other"
